@@ -205,14 +205,13 @@ def allow_origin(sc, c: H.Case, value, reason):
     if not isinstance(value, dict):
         return None
     tn = value.get("tool_name")
-    routed = "tool_name" not in value or "--cursor" in c.flags or H.truthy_env(c.env.get("DIPPY_CURSOR")) or (
-        isinstance(tn, str) and (tn.startswith("mcp__") or tn in H.SHELL_TOOLS))
+    routed = "tool_name" not in value or (isinstance(tn, str) and (tn.startswith("mcp__") or tn in H.SHELL_TOOLS))
     pm = value.get("permission_mode")
     if isinstance(pm, str) and pm in H.BYPASS and routed and reason == pm:
         return "bypass"
     ti = value.get("tool_input") if isinstance(value.get("tool_input"), dict) else {}
     cwds = [x for x in (value.get("cwd"), ti.get("cwd")) if isinstance(x, str) and x] + [sc.proj(c.proj_cfg)]
-    if isinstance(tn, str) and tn.startswith("mcp__") and H.expected_mode(c, value) != "cursor":
+    if isinstance(tn, str) and tn.startswith("mcp__"):   # tool_name present: the tool path, whatever the mode
         for cwd in cwds:
             try:
                 cfg = H.real_load_config(sc, c, cwd)
